@@ -178,6 +178,10 @@ impl<'a> Tr<'a> {
     }
 
     /// `let root := <root with path := new> in rest` (through the alias if root is one)
+    pub fn write_place_force(&mut self, root: &str, path: &[Member], env: &Env, new: &str, rest: &str, at: &Expr) -> R<String> {
+        self.write_place(root, path, env, new, rest, at)
+    }
+
     pub fn write_place(&mut self, root: &str, path: &[Member], env: &Env, new: &str, rest: &str, at: &Expr) -> R<String> {
         let v = env.get(root).cloned().ok_or_else(|| unsupported(at, &format!("assignment to `{}` which is not a local variable", root)))?;
         if !v.mutable && v.alias.is_none() {
@@ -398,6 +402,21 @@ impl<'a> Tr<'a> {
                         let rest = self.write_place(&root, &path, env, &r, &rest, e)?;
                         let call = format!("(if fst {r0} <? snd {r0} then ((fst {r0} + 1, snd {r0}), Some (fst {r0})) else ({r0}, None))", r0 = recv.s);
                         return Ok(Some(let_pat(&[r, x], &call, &rest)));
+                    }
+                }
+            }
+        }
+        // builtin: `it.next()` on a `str.chars()` / list iterator place: the head, the iterator moves on
+        if let Expr::MethodCall(m) = e {
+            if m.method == "next" && m.args.is_empty() {
+                if let Ok(recv) = self.pure(&m.receiver, env, None) {
+                    if let Ty::Iter(t) = &recv.ty {
+                        let (root, path) = self.target_of(&m.receiver)?;
+                        let r = self.fresh("itr");
+                        let x = self.fresh("nx");
+                        let rest = k(self, Val { s: x.clone(), ty: Ty::Option(t.clone()) })?;
+                        let rest = self.write_place_force(&root, &path, env, &r, &rest, e)?;
+                        return Ok(Some(let_pat(&[r, x], &format!("(Casts.list_next {})", recv.s), &rest)));
                     }
                 }
             }
